@@ -127,8 +127,12 @@ def _pod_from_match(pod: str, m: RegexMatch) -> str:
     "|(?P<mod_late>(spät(e(r|n|m))?|late)))",
     predicate("isPOD"),
 )
-def ruleEarlyLatePOD(ts: datetime, m: RegexMatch, p: Time) -> Time:
-    return Time(POD=_pod_from_match(p.POD, m))
+def ruleEarlyLatePOD(ts: datetime, m: RegexMatch, p: Time) -> Optional[Time]:
+    pod = _pod_from_match(p.POD, m)
+    if pod not in pod_hours:
+        # modifiers can only be stacked as deep as the part-of-day table goes
+        return None
+    return Time(POD=pod)
 
 
 _pods = [
